@@ -49,10 +49,16 @@ Definition enums_ok (b : binds) (r : record) : bool :=
   forallb (fun x => match enum_field b (fst (fst x)) (rec_z r (fst (fst x))) with
                     | MappingError => false | _ => true end) b.
 
-(* stream.seek(off) on the BytesIO, as what a following read sees: past the end there is nothing to read
-   ([skipn] past the end is []; no length is computed, so a walk over thousands of records stays cheap
-   after extraction) *)
-Definition seek (img : list Z) (off : Z) : list Z := skipn (Z.to_nat off) img.
+(* stream.seek(off) on the BytesIO, as what a following read sees: the bytes from [off] on, nothing past the
+   end.  Written as a walk down the image with a Z countdown: it computes no length and never builds a unary
+   number from a file-controlled offset (garbage displacements reach 2^32), so walks over thousands of records
+   stay cheap after extraction.  (= skipn (Z.to_nat off) img, Proofs/C15Proofs.v seek_eq) *)
+Fixpoint seek (img : list Z) (off : Z) : list Z :=
+  if off <=? 0 then img
+  else match img with
+       | [] => []
+       | _ :: r => seek r (off - 1)
+       end.
 
 (* common/utils.py struct_parse(struct, stream, stream_pos=off):
    stream.seek(off); struct.parse_stream(stream); ConstructError -> ELFParseError *)
@@ -67,7 +73,10 @@ Definition struct_parse_at (s : cstruct) (img : list Z) (off : Z) : res record :
      return s.decode('utf-8', errors='replace') if s else ''          (names are byte lists here) *)
 Definition get_string (img : list Z) (strtab : shdr) (offset : Z) : list Z :=
   let pos := sh_offset strtab + offset in
-  match parse_cstring_at img (Z.to_nat pos) with     (* past the end: no terminator found, None *)
+  let rest := seek img pos in
+  (* parse_cstring_from_stream: 64-byte chunks up to the first NUL; EOF first => None.  Fuel: one round per
+     remaining byte is more than the chunk loop can use *)
+  match cstr_chunks (S (List.length rest)) rest with
   | Some s => s
   | None => []
   end.
